@@ -360,3 +360,122 @@ Lemma spared_example :
     [UBulk [MkPay (0, 1, 7) true 3]; UBulk [MkPay (0, 2, 7) true 4]; UWithdraw 7 None] /\
   bs_cmds (bs_process 7 5 {[6]} evs).1 = [] /\ (bs_process 7 5 {[6]} evs).2 = [].
 Proof. repeat split; reflexivity. Qed.
+
+(* ==== C15: the unit's own counters on the session loop (bm_step / bsm_loop / bsm_process) ==== *)
+
+(* the loop with counters is the loop: same state, same events left over *)
+Lemma bsm_loop_refines id key evs : forall s m,
+  (bsm_loop id key s m evs).1.1 = (bs_loop id key s evs).1 /\ (bsm_loop id key s m evs).2 = (bs_loop id key s evs).2.
+Proof.
+  induction evs as [|e evs IH]; intros s m; cbn [bsm_loop bs_loop]; [split; reflexivity|].
+  destruct (bs_step id key s e) as [s' go]. destruct go; [apply IH|split; reflexivity].
+Qed.
+
+Lemma bsm_process_refines id key live0 m0 evs :
+  ((bsm_process id key live0 m0 evs).1.1, (bsm_process id key live0 m0 evs).2) = bs_process id key live0 evs.
+Proof.
+  unfold bsm_process, bs_process.
+  pose proof (bsm_loop_refines id key evs (bs_init live0) m0) as [H1 H2].
+  destruct (bsm_loop id key (bs_init live0) m0 evs) as [[s m] rest].
+  destruct (bs_loop id key (bs_init live0) evs) as [s2 rest2]. cbn [fst snd] in *. subst. reflexivity.
+Qed.
+
+(* the counters after the loop = the status reporter calls of the events the loop handled *)
+Lemma bsm_loop_taken id key evs : forall s m,
+  (bsm_loop id key s m evs).1.2 = fold_left bm_step (bs_taken id key s evs) m.
+Proof.
+  induction evs as [|e evs IH]; intros s m; cbn [bsm_loop bs_taken]; [reflexivity|].
+  destruct (bs_step id key s e) as [s' go]. destruct go; cbn [fold_left fst snd]; [apply IH|reflexivity].
+Qed.
+
+(* the handled events are the script without what the loop did not get to *)
+Lemma bs_taken_prefix id key evs : forall s,
+  bs_taken id key s evs ++ (bs_loop id key s evs).2 = evs.
+Proof.
+  induction evs as [|e evs IH]; intros s; cbn [bs_taken bs_loop]; [reflexivity|].
+  destruct (bs_step id key s e) as [s' go]. destruct go; cbn [snd app]; [f_equal; apply IH|reflexivity].
+Qed.
+
+Lemma bs_count_cons f e evs : bs_count f (e :: evs) = ((if f e then 1 else 0) + bs_count f evs)%N.
+Proof. unfold bs_count. cbn [List.filter]. destruct (f e); cbn [length]; lia. Qed.
+
+Lemma bm_fold_counts evs : forall m,
+  bm_lost (fold_left bm_step evs m) = (bm_lost m + bs_count bs_is_lost evs)%N /\
+  bm_disc (fold_left bm_step evs m) = (bm_disc m + bs_count bs_is_disc evs)%N.
+Proof.
+  induction evs as [|e evs IH]; intros m; cbn [fold_left].
+  - unfold bs_count; cbn; split; lia.
+  - destruct (IH (bm_step m e)) as [Hl Hd]. rewrite Hl, Hd, !bs_count_cons.
+    destruct e as [| |k| |u| |b| | |[]]; cbn [bm_step bm_lost bm_disc bs_is_lost bs_is_disc]; split; lia.
+Qed.
+
+(* every counter equals the number of matching events among those the loop handled, whatever
+   the script and whatever the counters were when the session started *)
+Theorem bgp_counters_count id key live0 m0 evs :
+  let taken := bs_taken id key (bs_init live0) evs in
+  let m := (bsm_process id key live0 m0 evs).1.2 in
+  bm_lost m = (bm_lost m0 + bs_count bs_is_lost taken)%N /\
+  bm_disc m = (bm_disc m0 + bs_count bs_is_disc taken)%N.
+Proof.
+  cbn zeta. unfold bsm_process.
+  pose proof (bsm_loop_taken id key evs (bs_init live0) m0) as Ht.
+  destruct (bsm_loop id key (bs_init live0) m0 evs) as [[s m] rest]. cbn [fst snd] in *. subst m.
+  apply bm_fold_counts.
+Qed.
+
+(* a ConnectionLost - with or without a socket address - always ends the loop: it is the last
+   event the loop handles, and no handled script holds two *)
+Lemma bs_taken_loss_last id key evs : forall s,
+  bs_count bs_is_lost (bs_taken id key s evs) =
+  match last (bs_taken id key s evs) with Some e => if bs_is_lost e then 1%N else 0%N | None => 0%N end.
+Proof.
+  induction evs as [|e evs IH]; intros s; cbn [bs_taken]; [reflexivity|].
+  destruct (bs_step id key s e) as [s' go] eqn:Hs. destruct go.
+  - rewrite bs_count_cons.
+    assert (He : bs_is_lost e = false).
+    { destruct e as [| |k| |u| |b| | |[]]; try reflexivity. cbn [bs_step] in Hs. discriminate. }
+    rewrite He, IH. rewrite last_cons.
+    destruct (last (bs_taken id key s' evs)) as [e'|]; [lia|]. rewrite He. reflexivity.
+  - rewrite bs_count_cons. unfold bs_count at 1. cbn [List.filter length last].
+    change (last [e]) with (Some e). destruct (bs_is_lost e); reflexivity.
+Qed.
+
+Theorem bgp_lost_count_counts_every_loss id key live0 m0 evs :
+  bm_lost (bsm_process id key live0 m0 evs).1.2 =
+  (bm_lost m0 + if bs_ended_by_loss id key live0 evs then 1 else 0)%N.
+Proof.
+  destruct (bgp_counters_count id key live0 m0 evs) as [Hl _]. cbn zeta in Hl. rewrite Hl.
+  rewrite bs_taken_loss_last. unfold bs_ended_by_loss.
+  destruct (last (bs_taken id key (bs_init live0) evs)) as [e|]; [destruct (bs_is_lost e)|]; reflexivity.
+Qed.
+
+(* the unit's counter over the sessions it serves = the number of sessions that ended by a
+   lost connection; accepted - lost can only be right if this holds *)
+Theorem bgp_unit_lost_counts_sessions id key sessions : forall m,
+  bm_lost (bsm_unit id key m sessions) =
+  (bm_lost m + N.of_nat (length (List.filter (fun x => bs_ended_by_loss id key x.1 x.2) sessions)))%N.
+Proof.
+  induction sessions as [|[live0 evs] rest IH]; intros m; cbn [bsm_unit List.filter fst snd].
+  - cbn. lia.
+  - rewrite IH, bgp_lost_count_counts_every_loss.
+    destruct (bs_ended_by_loss id key live0 evs); cbn [length]; lia.
+Qed.
+
+Theorem bgp_counters_monotone id key live0 m0 evs :
+  (bm_lost m0 <= bm_lost (bsm_process id key live0 m0 evs).1.2)%N /\
+  (bm_disc m0 <= bm_disc (bsm_process id key live0 m0 evs).1.2)%N.
+Proof. destruct (bgp_counters_count id key live0 m0 evs) as [Hl Hd]. cbn zeta in *. rewrite Hl, Hd. split; lia. Qed.
+
+(* the seeded variant: an established session whose writer task notices the dead peer first *)
+Definition bgp_lost_witness : list bs_ev := [BNegotiate; BMsgNegotiated; BMsgLost false].
+Theorem bgp_lost_early_return_refuted :
+  bs_ended_by_loss 7 5 ∅ bgp_lost_witness = true /\
+  bm_lost (bsm_loop_with bm_step_early_return 7 5 (bs_init ∅) (MkMet 0 0) bgp_lost_witness) = 0%N /\
+  bm_lost (bsm_process 7 5 ∅ (MkMet 0 0) bgp_lost_witness).1.2 = 1%N.
+Proof. repeat split; vm_compute; reflexivity. Qed.
+
+Lemma bgp_counters_example :
+  let evs := [BNegotiate; BMsgNegotiated; BTerminate; BTick; BReconf BRPeer; BMsgLost false; BMsgLost true] in
+  (bsm_process 7 5 {[6]} (MkMet 3 1) evs).1.2 = MkMet 4 2 /\ (bsm_process 7 5 {[6]} (MkMet 3 1) evs).2 = [BMsgLost true] /\
+  bsm_unit 7 5 (MkMet 0 0) [(∅, evs); (∅, [BNegotiate; BTickErr 0]); (∅, [BReconf BRGone]); (∅, [BMsgLost true])] = MkMet 2 2.
+Proof. repeat split; vm_compute; reflexivity. Qed.
